@@ -126,8 +126,8 @@ def _syn_var_cfgs(tier):
     out = []
     for c in _syn_cfgs(tier):
         n = codes.build(c).generator_matrix.shape[1]
-        # two blocks per row square the number of paths: multi-block layouts for n <= 8 (thorough: n <= 15)
-        out += codes.with_variants([c], ["1d", "B1", "1d:int64", "plain"] + (["Bb", "1db"] if n <= (8 if tier == "quick" else 15) else []) + (["ml"] if n <= 12 else []))
+        # two blocks per row square the number of paths: multi-block layouts for n <= 8 (thorough: n <= 10; 80 s per configuration at n = 15)
+        out += codes.with_variants([c], ["1d", "B1", "1d:int64", "plain"] + (["Bb", "1db"] if n <= (8 if tier == "quick" else 10) else []) + (["ml"] if n <= 12 else []))
     return out
 
 
